@@ -48,10 +48,12 @@ def load_yaml(
         mark = err.problem_mark or err.context_mark
         position = (mark.line, mark.column) if mark is not None else (0, 0)
         return [], ErrorParsingYAMLFile(path, err.problem or str(err), position)
-    except (yaml.error.YAMLError, TypeError, RecursionError) as err:
+    except (yaml.error.YAMLError, TypeError, ValueError, RecursionError) as err:
         # ReaderError (unacceptable characters) carries no mark; an unhashable
-        # mapping key raises TypeError from the mapping constructor; pathological
-        # nesting exhausts the stack inside PyYAML.
+        # mapping key raises TypeError from the mapping constructor; a scalar that
+        # looks like a date or carries an explicit tag but cannot be converted
+        # ("2001-13-45", "!!int abc") raises ValueError from its constructor;
+        # pathological nesting exhausts the stack inside PyYAML.
         return [], ErrorParsingYAMLFile(path, str(err), 0)
 
     return result, None
